@@ -49,6 +49,9 @@ pub enum Cmd {
     Loop { until: bool, id: u32, count: u32, body: Box<Cmd> },
     For { id: u32, words: Vec<&'static str>, body: Box<Cmd> },
     /// `terms[i]`: terminator of item i: 0 `;;`, 1 `;&` (run the next body untested), 2 `;|` / 3 `;;&` (go on testing)
+    /// a simple command whose words all expand to nothing: its status is that of the last command
+    /// substitution performed (XCU 2.9.1); `shape` picks where empty words stand around it
+    SubstOnly { st: i32, shape: u8 },
     /// `: ${var=val}` : assigns if the variable is unset (to the visible variable, else globally)
     AssignSwitch { var: &'static str, val: String, colon: bool },
     Case { word: &'static str, items: Vec<(Vec<&'static str>, Cmd)>, terms: Vec<u8> },
@@ -302,6 +305,10 @@ impl Sh {
             }
             Cmd::False => {
                 self.status = 1;
+                self.errexit_check()
+            }
+            Cmd::SubstOnly { st, .. } => {
+                self.status = *st;
                 self.errexit_check()
             }
             Cmd::NotFound => {
@@ -938,6 +945,13 @@ impl Render<'_> {
             Cmd::AssignSwitch { var, val, colon } => format!(": ${{{var}{}={val}}}", if *colon { ":" } else { "" }),
             Cmd::True => "true".into(),
             Cmd::False => "false".into(),
+            Cmd::SubstOnly { st, shape } => match shape % 5 {
+                0 => format!("$(ret {st})"),
+                1 => format!("$(ret {st}) $vunset"),
+                2 => format!("$vunset $(ret {st})"),
+                3 => format!("$(ret {}) $(ret {st})", (st + 1) % 3),
+                _ => format!("$vunset $(ret {st}) $vunset ${{vunset:+x}}"),
+            },
             Cmd::Colon => ":".into(),
             Cmd::NotFound => "nosuchcommand_".into(),
             Cmd::Ext => "ext".into(),
@@ -1099,10 +1113,17 @@ impl Render<'_> {
             Cmd::CmdSubst { id, out, body } => {
                 let b = self.list(body);
                 // (backquotes do not nest without escaping, and `\` + newline inside them is special)
+                // further assignments without a substitution do not change the status
+                let (pre, post) = match self.rng.below(5) {
+                    0 => ("z1=plain ", ""),
+                    1 => ("", " z2=plain"),
+                    2 => ("z1= ", " z2=$vunset"),
+                    _ => ("", ""),
+                };
                 if self.rng.chance(30) && !b.contains('`') && !b.contains('\\') {
-                    format!("s{id}=`echo {out}; {b}`")
+                    format!("{pre}s{id}=`echo {out}; {b}`{post}")
                 } else {
-                    format!("s{id}=$(echo {out}; {b})")
+                    format!("{pre}s{id}=$(echo {out}; {b}){post}")
                 }
             }
             Cmd::ProbeS { id, var_id } => format!("pvar k{id} s{var_id}"),
@@ -1182,6 +1203,12 @@ impl<'a> Gen<'a> {
     fn leaf(&mut self, cx: Cx) -> Cmd {
         self.budget -= 1;
         let r = self.rng.below(100);
+        if r >= 94 && !self.cfg.vars {
+            return Cmd::SubstOnly {
+                st: *self.rng.pick(&[0, 0, 1, 3]),
+                shape: self.rng.below(5) as u8,
+            };
+        }
         if self.cfg.errors && r < 22 {
             let id = self.id();
             return match self.rng.below(9) {
@@ -1355,6 +1382,16 @@ impl<'a> Gen<'a> {
                 Cmd::Dot { id, body: Box::new(body) }
             }
             4 => Cmd::Brace(Box::new(self.list(d, 3))),
+            6 if !self.cfg.vars && self.rng.chance(50) => {
+                // an assignment whose value is a command substitution: a subshell whose status
+                // becomes the status of the assignment
+                let id = self.id();
+                Cmd::CmdSubst {
+                    id,
+                    out: *self.rng.pick(&["out", "x y", ""]),
+                    body: Box::new(self.list(sub, 2)),
+                }
+            }
             5 | 6 => Cmd::Subshell(Box::new(self.list(sub, 3))),
             7 | 8 => {
                 let n = self.rng.range(1, 2);
